@@ -77,6 +77,10 @@ def phantom(ptype, pkind):
 # a phantom obstacle WITH a prediction calls occupancy_at_time_step inside the condition of an `if` (a generated loop in
 # expression position): outside the translatable subset, tied by correspondence only
 PHANTOM_JOBS = []
+# TrajectoryPrediction as _create_occupancy_set sees it: _trajectory, _shape, and _wheelbase_lengths which is None (the
+# only value __init__ gives it: the setter stores under a differently spelled name); the states carry an orientation
+TRAJ_PRED_SRC = ("(traj_pred_src S R)", [("_trajectory", "ts_traj", ("obj", "Trajectory")), ("_shape", "ts_shape", "R"),
+                                        ("_wheelbase_lengths", "ts_wheelbase", "None")])
 ENV = ("(env_obs R)", [("_obstacle_shape", "eo_shape", "R")])
 
 
@@ -97,6 +101,25 @@ def render_occupancy(tr, obj, heap, ret):
     return "{| o_time := " + key + "; o_region := " + sh[1] + " |}"
 
 
+def occupancy_pair(tr, obj, heap):
+    """an Occupancy with an int time step as the pair (time_step, shape) of Model/DispatchCfg.v"""
+    extra = set(obj) - {"__class__", "_time_step", "_shape"}
+    if extra:
+        raise TranslationError(f"Occupancy carries attributes outside the model: {sorted(extra)}")
+    ts, sh = obj["_time_step"], obj["_shape"]
+    if sh[0] != "R" or ts[0] not in ("Z", "num"):
+        raise TranslationError("Occupancy built in a loop: time step must be an int, shape a shape")
+    return f"({tr.toZ(ts)[1]}, {sh[1]})"
+
+
+def occupancy_shape_from_state(tr, args, node):
+    """geometry.shape.occupancy_shape_from_state(shape, state): the section variable osfs (Model/Occupancy.v part (ii)
+    is its model for the concrete shapes and states; here it is opaque)"""
+    if len(args) != 2 or args[0][0] != "R" or args[1][0] != "St":
+        raise TranslationError("occupancy_shape_from_state(shape, state) expected")
+    return ("R", f"(osfs {args[0][1]} {args[1][1]})")
+
+
 def translator():
     S, P = os.path.join(REPO, "commonroad", "scenario"), os.path.join(REPO, "commonroad", "prediction")
     tr = Translator([Module("obstacle", os.path.join(S, "obstacle.py")), Module("trajectory", os.path.join(S, "trajectory.py")),
@@ -109,6 +132,9 @@ def translator():
     tr.value_types = {"St": "S", "R": "R"}
     tr.renderers = {"St": lambda t, v: v[1], "R": lambda t, v: v[1]}
     tr.object_renderers = {"Occupancy": render_occupancy}
+    tr.record_ctors = {"Occupancy": occupancy_pair}
+    tr.value_hasattr = {("St", "orientation"): True}
+    tr.prims["occupancy_shape_from_state"] = occupancy_shape_from_state
     tr.res_type, tr.ok_ctor = "pyres", "POk"
     tr.err_text = lambda exc: f'(PRaise "{exc}"%string)'
     tr.err_pat = "(PRaise exc_)"
@@ -136,11 +162,18 @@ def text():
     tr.records["EnvironmentObstacle"] = ENV
     defs.append(tr.translate("src_env_occ", ("method", "EnvironmentObstacle", "occupancy_at_time"),
                              [("o", "obj", "EnvironmentObstacle"), T], "(occ R)", "EnvironmentObstacle.occupancy_at_time"))
+    tr.records = dict(BASE)
+    tr.records.update(CONFIGS["step"])
+    tr.records["TrajectoryPrediction"] = TRAJ_PRED_SRC
+    defs.append(tr.translate("src_create_occs", ("method", "TrajectoryPrediction", "_create_occupancy_set"),
+                             [("p", "obj", "TrajectoryPrediction")], "(list (Z * R))",
+                             "TrajectoryPrediction._create_occupancy_set (states with an orientation, no wheelbase lengths)"))
     srcs = ", ".join(f"{m.path} sha1={tr.sources[m.name]}" for m in tr.modules.values())
     out = ["(* GENERATED on every run by harness/vlib/py2coq.py + harness/props/c04_src.py (symbolic execution of the Python "
            "source). Do not edit.", f"   sources: {srcs} *)", HEADER, "", "Section Src.",
            "Variables S R : Type.          (* states, shapes: opaque *)",
-           "Variable tstep : S -> Z.       (* state.time_step *)", ""]
+           "Variable tstep : S -> Z.       (* state.time_step *)",
+           "Variable osfs : R -> S -> R.   (* occupancy_shape_from_state(shape, state) *)", ""]
     return "\n".join(out + tr.aux + [""] + defs + ["End Src."]) + "\n"
 
 
